@@ -28,7 +28,7 @@ REQUIRED_THEOREMS = ['OpusProps.C03.' + t for t in (
     'silkSyms_total', 'silkSyms_indices_in_range', 'silkSyms_decode_indices_in_range', 'silkSyms_tables_wellformed',
     'silkSyms_tables_frozen_eq_repo', 'silkSyms_lsb_loop_exits', 'silkSyms_pulses_fit_int16',
     'silkSyms_symbols_history_free', 'silkSyms_lag_index_packet_bound', 'celtHdr_total_in_range', 'celtHdr_total_arbitrary_bytes',
-    'celtHdr_tables_frozen_eq_repo')]
+    'celtHdr_hybrid_total_in_range', 'celtHdr_tables_frozen_eq_repo')]
 UNPROVED = [
     'silkSyms_lag_index_tight_bound: lagIndex in [-16, 277]. Proved is the packet-level bound [-48, 321] '
     '(silkSyms_lag_index_packet_bound, a counting argument plus history-freeness, enough for the opus_int16 store); the sharper '
@@ -41,8 +41,6 @@ UNPROVED = [
     'energy bits, the PVQ band data of quant_all_bands, anti-collapse bit and energy finalisation are not modelled; the CELT '
     'header model stops at the arguments and decoder state with which clt_compute_allocation is entered (CELT-only, hybrid '
     'and redundancy frames); the rest of a CELT frame is covered by the final-range search only',
-    'celtHdr for hybrid frames is proved from the invariant J of the decoder state handed over by the SILK layer; that the '
-    'SILK symbol layer preserves J is not proved (CELT-only and redundancy frames start from ec_dec_init, where J is proved)',
     'pcm_within_tolerance: the PCM clause is a statement about float DSP relative to an external reference decoder that does not '
     'exist offline; guarded by the self-reference corpus (regression oracle) only',
 ]
